@@ -21,7 +21,7 @@ SCEN = [
     ("reduce_reduce_orphan", [(1, {}, [["call", 3], ["call", 4], ["orphan", "0" * 32, "f" * 32]])], [(1, {}, [["reduce", {"items_limit": 0}]]), (1, {}, [["reduce", {"items_limit": 1}]])], None),
     ("clearall_call", [(1, {}, [["call", 3]])], [(1, {}, [["call", 3], ["call", 4]]), (1, {}, [["clear_all"]])], None),
 ]
-QUICK = {"call_call_same_cold", "call_clear_cold", "call_clear_warm", "call_reduce_warm", "shelve_reduce_warm", "call_call_clear", "threads_call_call_clear", "expires_call_reduce", "reduce_clear_orphan"}
+QUICK = {"call_call_same_cold", "call_clear_cold", "call_clear_warm", "call_reduce_warm", "shelve_reduce_warm", "call_call_clear", "threads_call_call_clear", "expires_call_reduce", "reduce_clear_orphan", "clearall_call"}
 
 
 def spec_of(base, k, ver, opts, ops):
